@@ -144,6 +144,36 @@ func e2eC17(repo, dir string, vals map[string]string) ([]string, error) {
 		}
 	}
 	os.RemoveAll(filepath.Join(e.dir, "wr"))
+	// every kind of method reports its conversion errors: a target field without source inside an update method
+	// (value and pointer source), a pointer method, a slice method - next to a good package, nothing is written
+	for i, m := range []string{
+		"\t// goverter:update target\n\tConvert(source *In, target *Out)", "\t// goverter:update target\n\tConvert(source In, target *Out)",
+		"\tConvert(source *In) *Out", "\tConvert(source []In) []Out", "\tConvert(source map[string]*In) map[string]Out",
+	} {
+		e.write("kind/in.go", "package kind\n\n// goverter:converter\ntype C interface {\n"+m+"\n}\ntype In struct{ A int }\ntype Out struct {\n\tA int\n\tNoSource int\n}\n")
+		bk := e.tree()
+		code, _, se := e.run("gen", "./good2", "./kind")
+		if code != 1 || strings.TrimSpace(se) == "" {
+			bad = append(bad, fmt.Sprintf("target field without a source in method kind %d (%s): exit %d, want 1 and a diagnostic", i, strings.TrimSpace(m[strings.LastIndex(m, "\t")+1:]), code))
+		}
+		if d := sameTree(bk, e.tree()); len(d) > 0 {
+			bad = append(bad, fmt.Sprintf("failing run (method kind %d) changed files: %s", i, strings.Join(d, ", ")))
+		}
+	}
+	os.RemoveAll(filepath.Join(e.dir, "kind"))
+	// a -g line that one of the converters of the run cannot take fails the run, whichever converter it is
+	e.write("gvars/in.go", "package gvars\n\n// goverter:variables\nvar (\n\tConvert func(source In) Out\n)\n\ntype In struct{ A int }\ntype Out struct{ A int }\n")
+	for _, args := range [][]string{{"gen", "-g", "output:format function", "./good2", "./gvars"}, {"gen", "-g", "output:format function", "./gvars", "./good2"}, {"gen", "-g", "output:format function", "./gvars"}} {
+		bk := e.tree()
+		code, _, se := e.run(args...)
+		if code != 1 || strings.TrimSpace(se) == "" {
+			bad = append(bad, fmt.Sprintf("%q: a -g line that the variables block cannot take: exit %d, want 1 and a diagnostic", strings.Join(args, " "), code))
+		}
+		if d := sameTree(bk, e.tree()); len(d) > 0 {
+			bad = append(bad, fmt.Sprintf("%q: failing run changed files: %s", strings.Join(args, " "), strings.Join(d, ", ")))
+		}
+	}
+	os.RemoveAll(filepath.Join(e.dir, "gvars"))
 	// unusable settings on the second of two declared methods for one pair (they differ in their contexts)
 	e.write("twosig/in.go", "package twosig\n\n// goverter:converter\n// goverter:arg:context:regex ^ctx\ntype C interface {\n\tA(source int, ctxA CtxA) int\n\t// goverter:ignore Nope\n\tB(source int, ctxB CtxB) int\n}\ntype CtxA struct{}\ntype CtxB struct{}\n")
 	code, _, se = e.run("gen", "./twosig")
@@ -325,6 +355,28 @@ func e2eC16(repo, dir string, vals map[string]string) ([]string, error) {
 	if code != 0 || strings.Contains(string(b), "//go:build") {
 		bad = append(bad, "empty -output-constraint still emits a constraint line")
 	}
+	// the number of packages of a run does not matter: 40 packages whose outputs (same package) are stale after a
+	// field was renamed everywhere are regenerated
+	{
+		mk := func(field string) {
+			for i := 0; i < 40; i++ {
+				pk := fmt.Sprintf("q%02d", i)
+				e.write("many/"+pk+"/in.go", "package "+pk+"\n\n// goverter:variables\nvar (\n\tConvert func(source In) Out\n)\n\ntype In struct{ "+field+" int }\ntype Out struct{ "+field+" int }\n")
+			}
+		}
+		mk("A")
+		if code, _, se := e.run("gen", "./many/..."); code != 0 {
+			bad = append(bad, "40 packages in one run are not generated: "+firstLine(se))
+		} else {
+			mk("B")
+			code, _, se = e.run("gen", "./many/...")
+			b, _ := os.ReadFile(filepath.Join(e.dir, "many/q39/in.gen.go"))
+			if code != 0 || !strings.Contains(string(b), "source.B") {
+				bad = append(bad, "stale outputs of 40 packages block regeneration (the build tag has to reach every load): "+firstLine(se))
+			}
+		}
+		os.RemoveAll(filepath.Join(e.dir, "many"))
+	}
 	// tags are handed to the loader as written (case matters to the go tool)
 	e.write("mixed/in.go", strings.Replace(e2eGood, "package good", "package mixed", 1))
 	e.write("mixed/use.go", "//go:build !codeGen\n\npackage mixed\n\nimport \"e2e/mixed/generated\"\n\nvar _ C = &generated.CImpl{}\n")
@@ -333,6 +385,17 @@ func e2eC16(repo, dir string, vals map[string]string) ([]string, error) {
 		bad = append(bad, "-build-tags codeGen: files behind the constraint !codeGen are not hidden while loading: "+firstLine(se))
 	}
 	os.RemoveAll(filepath.Join(e.dir, "mixed"))
+	// ... whatever the go tool accepts as a tag: dots, a leading digit, a Go keyword, several tags
+	for _, tag := range []string{"codegen.v2", "2fa", "type", "gen,codegen.v2"} {
+		last := tag[strings.LastIndex(tag, ",")+1:]
+		e.write("tagform/in.go", strings.Replace(e2eGood, "package good", "package tagform", 1))
+		e.write("tagform/use.go", "//go:build !"+last+"\n\npackage tagform\n\nimport \"e2e/tagform/generated\"\n\nvar _ C = &generated.CImpl{}\n")
+		code, _, se = e.run("gen", "-build-tags", tag, "-output-constraint", "!"+last, "./tagform")
+		if _, err := os.Stat(filepath.Join(e.dir, "tagform/generated/generated.go")); code != 0 || err != nil {
+			bad = append(bad, "-build-tags "+tag+": files behind the constraint !"+last+" are not hidden while loading: "+firstLine(se))
+		}
+		os.RemoveAll(filepath.Join(e.dir, "tagform"))
+	}
 	// both switched off: no tag for loading, no constraint line
 	e.write("notagsboth/in.go", strings.Replace(e2eGood, "package good", "package notagsboth", 1))
 	code, _, se = e.run("gen", "-build-tags", "", "-output-constraint", "", "./notagsboth")
@@ -1007,6 +1070,20 @@ func e2eC09(repo, dir string, vals map[string]string) ([]string, error) {
 		bad = append(bad, fmt.Sprintf("%d different diagnostics for one set of two faulty packages named alike, depending on the pattern order", len(souts)))
 	}
 	os.RemoveAll(filepath.Join(e.dir, "same"))
+	// ... nor on whether one pattern or several name the set: the go command expands ./... in directory-walk order
+	// (a, a/b, a-c), which is not the order of the import paths (a-c sorts before a/b)
+	for _, v := range []string{"a/b", "a-c", "a.d"} {
+		e.write("walk/"+v+"/in.go", "package conv\n\n// goverter:converter\n// goverter:bogus"+strings.NewReplacer("/", "", "-", "", ".", "").Replace(v)+"\ntype C interface {\n\tConvert(source In) Out\n}\ntype In struct{ A int }\ntype Out struct{ A int }\n")
+	}
+	wouts := map[string]bool{}
+	for _, pats := range [][]string{{"./walk/..."}, {"./walk/...", "./walk/..."}, {"./walk/a/...", "./walk/a-c", "./walk/a.d"}, {"./walk/a.d", "./walk/a-c", "./walk/a/..."}, {"./walk/...", "./walk/a-c"}} {
+		code, _, se := e.run(append([]string{"gen"}, pats...)...)
+		wouts[fmt.Sprintf("%d|%s", code, se)] = true
+	}
+	if len(wouts) > 1 {
+		bad = append(bad, fmt.Sprintf("%d different diagnostics for one set of faulty packages, depending on how the patterns spell the set (one ./... or several patterns)", len(wouts)))
+	}
+	os.RemoveAll(filepath.Join(e.dir, "walk"))
 	// two packages that do not compile: the reported one does not depend on the order of the patterns
 	for _, v := range []string{"alpha", "beta"} {
 		e.write("ce/"+v+"/in.go", "package "+v+"\n\n// goverter:converter\ntype C interface {\n\tConvert(source In) Out\n}\ntype In struct{ A int }\ntype Out struct{ A Missing"+v+" }\n")
@@ -1263,11 +1340,28 @@ func e2eC19(repo, dir string, vals map[string]string) ([]string, error) {
 		{"mfunc", "package mfunc\n\ntype In struct{ A int }\ntype Out struct{ A int }\n\n// goverter:converter\nfunc Convert(source In) Out { return Out{} }\n"},
 		{"mvarspec", "package mvarspec\n\ntype In struct{ A int }\ntype Out struct{ A int }\n\nvar (\n\t// goverter:variables\n\tConvert func(source In) Out\n)\n"},
 		{"mtypespec", "package mtypespec\n\ntype (\n\t// goverter:variables\n\tC interface{ Convert(source In) Out }\n\tIn struct{ A int }\n\tOut struct{ A int }\n)\n"},
+		{"mmethod", "package mmethod\n\ntype In struct{ A int }\ntype Out struct{ A int }\ntype H struct{}\n\n// goverter:converter\nfunc (H) Convert(source In) Out { return Out{} }\n"},
+		{"mmethodptr", "package mmethodptr\n\ntype In struct{ A int }\ntype Out struct{ A int }\ntype H struct{}\n\n/* goverter:variables */\nfunc (h *H) Convert(source In) Out { return Out{} }\n"},
 	} {
 		e.write(c.name+"/in.go", c.src)
 		if code, _, se := e.run("gen", "./"+c.name); code != 1 || !strings.Contains(se, "must be defined on") {
 			bad = append(bad, fmt.Sprintf("marker on a declaration that cannot carry it (%s): exit %d, want a diagnostic: %s", c.name, code, firstLine(se)))
 		}
+	}
+	// declarations inside function bodies are no converters, whatever their comments say: the run equals the one
+	// without them
+	{
+		base := "package local\n\n// goverter:converter\ntype C interface {\n\tConvert(source In) Out\n}\ntype In struct{ A int }\ntype Out struct{ A int }\n"
+		e.write("local/in.go", base)
+		c0, _, _ := e.run("gen", "./local")
+		b0, _ := os.ReadFile(filepath.Join(e.dir, "local/generated/generated.go"))
+		e.write("local/in.go", base+"\nfunc helper() {\n\t// goverter:converter\n\ttype scratch interface {\n\t\tConvert(source In) Out\n\t}\n\t// goverter:variables\n\tvar (\n\t\tlocalConv func(source In) Out\n\t)\n\t_ = localConv\n\tvar _ scratch\n}\n")
+		c1, _, se := e.run("gen", "./local")
+		b1, _ := os.ReadFile(filepath.Join(e.dir, "local/generated/generated.go"))
+		if c0 != 0 || c1 != 0 || string(b0) != string(b1) {
+			bad = append(bad, fmt.Sprintf("marked declarations inside a function body change the run (exit %d / %d): %s", c0, c1, firstLine(se)))
+		}
+		os.RemoveAll(filepath.Join(e.dir, "local"))
 	}
 	// the doc comment of a method with a receiver says nothing about the custom function of the same name
 	e.write("recv/in.go", "package recv\n\ntype In struct{ ID int }\ntype Out struct{ ID string }\ntype Helper struct{}\n\nfunc Format(id int) string { return \"\" }\n\n// goverter:context id\nfunc (Helper) Format(id int) string { return \"\" }\n\n// goverter:converter\n// goverter:extend Format\ntype C interface {\n\tConvert(source In) Out\n}\n")
@@ -1340,6 +1434,13 @@ func e2eC06(repo, dir string, vals map[string]string) ([]string, error) {
 	if code, _, se := e.run("gen", "./alt"); code != 0 {
 		bad = append(bad, "extend Conv|ConvX does not register ConvX: "+firstLine(se))
 	}
+	// a pattern selects package variables that hold a function like declared functions
+	e.write("fvar/in.go", "package fvar\n\n// goverter:converter\n// goverter:extend Conv.*\ntype C interface {\n\tConvert(source In2) Out2\n}\ntype In2 struct {\n\tID int\n\tN int8\n}\ntype Out2 struct {\n\tID string\n\tN string\n}\nfunc ConvID(id int) string { return \"\" }\n\nvar ConvN = func(n int8) string { return \"\" }\n")
+	if code, _, se := e.run("gen", "./fvar"); code != 0 {
+		bad = append(bad, "extend Conv.* does not register the function-valued variable ConvN: "+firstLine(se))
+	} else if b, _ := os.ReadFile(filepath.Join(e.dir, "fvar/generated/generated.go")); !strings.Contains(string(b), "fvar.ConvN(") || !strings.Contains(string(b), "fvar.ConvID(") {
+		bad = append(bad, "extend Conv.*: the function-valued variable ConvN / the function ConvID is not called")
+	}
 	// with the context available both are called
 	e.write("okdecl/in.go", "package okdecl\n\n// goverter:converter\n// goverter:arg:context:regex ^ctx\ntype C interface {\n\tConvert(source []In, ctxA Ctx) []Out\n\tInner(source In, ctxA Ctx) Out\n}\n"+types)
 	code, _, se := e.run("gen", "./okdecl")
@@ -1410,6 +1511,21 @@ func e2eC12(repo, dir string, vals map[string]string) ([]string, error) {
 		bad = append(bad, "an extend line that cannot be resolved is not reported where it was written (-g: "+firstLine(seG)+" | doc comment: "+firstLine(seD)+")")
 	}
 	os.RemoveAll(filepath.Join(e.dir, "loc"))
+	// the value of one -g flag is one setting line, whatever characters it contains (a comma inside a regular
+	// expression); an empty one is malformed
+	e.write("gcomma/in.go", "package gcomma\n\n// goverter:converter\ntype C interface {\n\tConvert(cctx Loc, source In) Out\n}\ntype Loc struct{ Lang string }\ntype In struct{ ID int }\ntype Out struct{ ID int }\n")
+	if code, _, se := e.run("gen", "-g", "arg:context:regex ^c{1,2}tx$", "./gcomma"); code != 0 {
+		bad = append(bad, "-g 'arg:context:regex ^c{1,2}tx$' is not taken as one setting line: "+firstLine(se))
+	} else if b, _ := os.ReadFile(filepath.Join(e.dir, "gcomma/generated/generated.go")); !strings.Contains(string(b), "Convert(context gcomma.Loc, source gcomma.In)") {
+		bad = append(bad, "-g 'arg:context:regex ^c{1,2}tx$': the parameter cctx is not a context in the generated method")
+	}
+	if code, _, _ := e.run("gen", "-g", "", "./gcomma"); code == 0 {
+		bad = append(bad, "an empty -g value is accepted")
+	}
+	if code, _, _ := e.run("gen", "-g", "ignoreMissing,matchIgnoreCase", "./gcomma"); code == 0 {
+		bad = append(bad, "-g 'ignoreMissing,matchIgnoreCase' (no such setting) is accepted")
+	}
+	os.RemoveAll(filepath.Join(e.dir, "gcomma"))
 	// a function named on a method is classified with the arg:context:regex above its line, not with one below it
 	mo := func(first, second string) string {
 		return "package mo\n\n// goverter:converter\ntype C interface {\n\t// goverter:" + first + "\n\t// goverter:" + second + "\n\tConvert(source In, ctxL Loc) Out\n}\ntype Loc struct{ Lang string }\ntype In struct{ ID int }\ntype Out struct{ Full string }\n\nfunc Lookup(id int, ctxL Loc) string { return \"\" }\n"
